@@ -1,9 +1,9 @@
 package props
 
 import (
-	"math"
 	"context"
 	"fmt"
+	"math"
 
 	"github.com/jig/lisp/types"
 
@@ -171,10 +171,10 @@ func init() {
 		}
 		// explicit equivalence-relation check on triples within and around each =-class
 		triples := &vf.Family{
-			Name:   "transitivity-triples",
-			Bounds: "for every value a: all b, c among the values that = reports equal to a or to each other's neighbours (the implementation's own classes), checking reflexivity, symmetry and transitivity directly on the implementation's answers",
-			Setup:  func(t string) { tier = t; env = lx.NewCoreEnv() },
-			N:      func(t string) int64 { tier = t; return int64(len(valuesOf())) },
+			Name:     "transitivity-triples",
+			Bounds:   "for every value a: all b, c among the values that = reports equal to a or to each other's neighbours (the implementation's own classes), checking reflexivity, symmetry and transitivity directly on the implementation's answers",
+			Setup:    func(t string) { tier = t; env = lx.NewCoreEnv() },
+			N:        func(t string) int64 { tier = t; return int64(len(valuesOf())) },
 			Describe: func(i int64) string { return "class of " + valuesOf()[i].Lisp() },
 			Run: func(i int64, r *vf.Rec) {
 				vs := valuesOf()
@@ -335,9 +335,9 @@ func init() {
 		}
 		return &vf.Check{
 			ID: "C14", Level: "model_checking",
-			Rule: "every ordered pair of data values of the bounded space is compared by the real = (through EVAL, with b also rebuilt along a second construction path) and by the model's independent structural equality; reflexivity, symmetry and transitivity are additionally checked on the implementation's own answers; non-trivial = pair of same kind / both sequential / equal",
+			Rule:        "every ordered pair of data values of the bounded space is compared by the real = (through EVAL, with b also rebuilt along a second construction path) and by the model's independent structural equality; reflexivity, symmetry and transitivity are additionally checked on the implementation's own answers; non-trivial = pair of same kind / both sequential / equal",
 			Assumptions: []string{"values above the weight bound; keys over {\"a\", :a, :b}"},
-			Families: []*vf.Family{pairs, triples, derived},
+			Families:    []*vf.Family{pairs, triples, derived},
 		}
 	})
 }
